@@ -96,8 +96,7 @@ def run(ctx):
                 continue  # diverges (assert) or cannot continue the loop
             lit = edge_literal(b, R, sb, cfg.edge_label[e])
             descr = None
-            if lit and lit[0] == 'true' and lit[1][0] == 'bin' and lit[1][1] == 'Eq' and \
-                    any(is_call(x, 'Tree::get_root_idx') for x in walk(lit[1])) and any(s(x) == s(node) for x in walk(lit[1])):
+            if lit and any(op_ == 'Eq' and is_call(y_, 'Tree::get_root_idx') and any(s(x) == s(node) for x in walk(x_)) for op_, x_, y_ in prune.cmp_facts([lit])):
                 descr = 'node is the root'
             elif lit and lit[0] == 'is' and set(lit[2]) <= CACHED and lit[1][0] == 'field' and lit[1][2] == 'state' and s(node_of(lit[1])[1]) == s(node):
                 descr = 'cached state ' + '/'.join(sorted(lit[2]))
@@ -182,8 +181,8 @@ def run(ctx):
         lits = literals(b, R, fb)
         wl = literals(b, R, wbb)
         own = [l for l in lits if (l[0], s(l[1])) not in [(x[0], s(x[1])) for x in wl]]
-        nrem = own and len(own) == 1 and own[0][0] == 'true' and own[0][1][0] == 'bin' and own[0][1][1] == 'Eq' and own[0][1][3] == ('const', 0) \
-            and own[0][1][2][0] == 'field' and own[0][1][2][2] == '2' and is_call(own[0][1][2][1], 'DfsNodeData::extract')
+        nrem = own and len(own) == 1 and any(op_ == 'Eq' and y_ == ('const', 0) and x_[0] == 'field' and x_[2] == '2' and is_call(x_[1], 'DfsNodeData::extract')
+                                             for op_, x_, y_ in prune.cmp_facts(own))
         parent = fa[1][0] == 'field' and fa[1][2] == 'source_idx' and is_call(fa[1][1], 'Tree::parent') and s(fa[1][1][2][1]) == s(node)
         after = cfg.dominates(wbb, fb)
         if nrem and parent and after:
